@@ -8,10 +8,10 @@ import (
 
 	"github.com/spf13/pflag"
 
+	"github.com/form3tech-oss/f1/v2/internal/trigger"
 	"github.com/form3tech-oss/f1/v2/internal/trigger/api"
-	"github.com/form3tech-oss/f1/v2/internal/trigger/constant"
 	"github.com/form3tech-oss/f1/v2/internal/trigger/rate"
-	"github.com/form3tech-oss/f1/v2/internal/trigger/staged"
+	"github.com/form3tech-oss/f1/v2/internal/ui"
 )
 
 type scripted struct {
@@ -160,6 +160,16 @@ func init() {
 	})
 }
 
+// builderOf returns the trigger builder of a mode the way the command line gets it: from trigger.GetBuilders.
+func builderOf(mode string) (api.Builder, bool) {
+	for _, b := range trigger.GetBuilders(ui.NewDiscardOutput()) {
+		if strings.HasPrefix(b.Name, mode+" ") {
+			return b, true
+		}
+	}
+	return api.Builder{}, false
+}
+
 func jitterText(jn, jd string) string {
 	return strconv.FormatFloat(float64(atoi(jn))/float64(atoi(jd)), 'f', -1, 64)
 }
@@ -167,20 +177,21 @@ func jitterText(jn, jd string) string {
 // builtRate runs the real builder of a mode on a command line and returns the rate function it assembled
 // (api.Trigger.DryRun, which every rate-driven builder sets to the function it also hands to the ticker loop).
 func builtRate(mode, rateStr string, cnt int, unit time.Duration, perr error, jitter, dist string) (api.RateFunction, error) {
-	var b api.Builder
 	var args []string
 	switch mode {
 	case "constant":
-		b = constant.Rate()
 		args = []string{"--rate", rateStr}
 	case "staged":
 		if perr != nil {
 			return nil, perr
 		}
-		b = staged.Rate()
 		args = []string{"--stages", fmt.Sprintf("0s:%d,1000000s:%d", cnt, cnt), "--iterationFrequency", unit.String()}
 	default:
 		return nil, fmt.Errorf("mode")
+	}
+	b, ok := builderOf(mode)
+	if !ok {
+		return nil, fmt.Errorf("no builder")
 	}
 	args = append(args, "--jitter", jitter, "--distribution", dist)
 	fs := pflag.NewFlagSet("verif", pflag.ContinueOnError)
